@@ -529,6 +529,110 @@ def suite_fsize(binf, tier, rng):
                 shutil.rmtree(base, ignore_errors=True)
     return out
 
+def suite_conc3(binf, tier, rng):
+    """forced schedules with THREE operations: A is parked on entry to its i-th cache system call, then B (a second process)
+    is parked on entry to its j-th, then C (a third process) runs to completion, then B resumes and finishes, then A.
+    The three results and the final tree must be those of one of the six serial orders."""
+    import tempfile, shutil, threading, itertools
+    from concurrent.futures import ThreadPoolExecutor
+    out = {"runs": 0, "skipped": 0, "failures": [], "dist": {}, "orders_seen": {}}
+    fl = "sync" if binf == "sync" else "async"
+    ops = conc_ops(fl)
+    K = kx("k")
+    warm = [{"op": "write", "fl": "sync", "key": K, "data": b"content A".hex(), "algo": "sha256"}]
+    triples = [("write k B", "remove k", "read k")] if tier == "quick" else \
+              [("write k B", "remove k", "read k"), ("write k B", "write k A", "metadata k"), ("write k2 A", "write k B", "read_hash A"),
+               ("remove k", "write k B", "write k2 A"), ("write k B", "write k A", "remove k")]
+    npts = 2 if tier == "quick" else 4
+    def run_serial(setup, order):
+        base = tempfile.mkdtemp(prefix="s3", dir=T.SCRATCH)
+        try:
+            c, e = os.path.join(base, "c"), os.path.join(base, "e")
+            os.makedirs(c); os.makedirs(e)
+            make_state_fn(binf, setup)(c, e)
+            res = {}
+            for name in order:
+                ip = ImplProc(binf, c, e); r = [ip.op(o) for o in _as_list(ops[name])][-1]; ip.close()
+                res[name] = _canon_obs(ops[name], r)
+            return res, _canon_tree(c, e)
+        finally:
+            shutil.rmtree(base, ignore_errors=True)
+    def points(setup, name):
+        base = tempfile.mkdtemp(prefix="p3", dir=T.SCRATCH)
+        try:
+            c, e = os.path.join(base, "c"), os.path.join(base, "e")
+            os.makedirs(c); os.makedirs(e)
+            make_state_fn(binf, setup)(c, e)
+            tr = T.trace_ops(binf, c, e, _as_list(ops[name]), want_reads=True, warmup=T.default_warmup(binf))
+            lo, hi = tr["spans"][-1]
+            pts = [(x["name"], x["thread_ord"], x.get("role"), T.brief(x)[:70]) for x in tr["calls"][lo:hi]
+                   if any(r == "c" for r, _ in (x.get("paths") or [])) or (x.get("fdpath") or ("",))[0] == "c"]
+            T.cleanup(tr)
+            return pts
+        finally:
+            shutil.rmtree(base, ignore_errors=True)
+    jobs = []
+    for (an, bn, cn) in triples:
+        for sname, setup in (("warm", warm),) if tier == "quick" else (("cold", []), ("warm", warm)):
+            refs = []
+            for order in itertools.permutations((an, bn, cn)):
+                res, tree = run_serial(setup, order)
+                refs.append((order, (res[an], res[bn], res[cn]), tree))
+            pa, pb = points(setup, an), points(setup, bn)
+            if not pa or not pb:
+                continue
+            pa = rng.sample(pa, min(npts, len(pa))); pb = rng.sample(pb, min(npts, len(pb)))
+            for x in pa:
+                for y in pb:
+                    jobs.append((sname, setup, an, bn, cn, x, y, refs))
+    def parked(c, e, op, pt, delay_us, box):
+        name, ordn, role, desc = pt
+        try:
+            tr = T.trace_ops(binf, c, e, _as_list(op), inject=f"{name}:delay_enter={delay_us}:when={ordn}", warmup=T.default_warmup(binf),
+                             only=role if role in ("cch-worker", "blocking-1", "tokio-rt-worker") else None, timeout=60)
+            box["r"] = tr["results"][-1]
+            T.cleanup(tr)
+        except Exception as ex:
+            box["err"] = repr(ex)[:200]
+    def one(job):
+        sname, setup, an, bn, cn, x, y, refs = job
+        base = tempfile.mkdtemp(prefix="c3", dir=T.SCRATCH)
+        try:
+            c, e = os.path.join(base, "c"), os.path.join(base, "e")
+            os.makedirs(c); os.makedirs(e)
+            make_state_fn(binf, setup)(c, e)
+            ra, rb = {}, {}
+            ta = threading.Thread(target=parked, args=(c, e, ops[an], x, 2400000, ra)); ta.start()
+            time.sleep(0.5)
+            tb = threading.Thread(target=parked, args=(c, e, ops[bn], y, 1100000, rb)); tb.start()
+            time.sleep(0.6)
+            ip = ImplProc(binf, c, e); rc = [ip.op(o) for o in _as_list(ops[cn])][-1]; ip.close()
+            tb.join(); ta.join()
+            if "err" in ra or "err" in rb:
+                return ("skip", job, ra.get("err") or rb.get("err"))
+            return ("done", job, ((_canon_obs(ops[an], ra["r"]), _canon_obs(ops[bn], rb["r"]), _canon_obs(ops[cn], rc)), _canon_tree(c, e)))
+        finally:
+            shutil.rmtree(base, ignore_errors=True)
+    with ThreadPoolExecutor(max_workers=6) as ex:
+        for status, job, got in ex.map(one, jobs):
+            sname, setup, an, bn, cn, x, y, refs = job
+            out["runs"] += 1
+            if status == "skip":
+                out["skipped"] += 1; continue
+            key = f"{an} || {bn} || {cn}"
+            out["dist"][key] = out["dist"].get(key, 0) + 1
+            hit = [order for order, res, tree in refs if (res, tree) == got]
+            if hit:
+                o = " ; ".join(hit[0]); out["orders_seen"][o] = out["orders_seen"].get(o, 0) + 1
+            else:
+                why = "results" if got[0] not in [r for _, r, _ in refs] else "final state"
+                out["failures"].append({"concrete": True,
+                    "text": f"{sname} cache, A = {an} parked before {x[3]}, B = {bn} parked before {y[3]}, C = {cn} ran, then B, then A: the {why} match none of the six serial orders "
+                            f"(A: {str(got[0][0])[:80]}, B: {str(got[0][1])[:80]}, C: {str(got[0][2])[:80]})",
+                    "replay": {"flavour": binf, "setup": setup, "A": ops[an], "B": ops[bn], "C": ops[cn], "A_parked_before": x[:2] + (x[3],), "B_parked_before": y[:2] + (y[3],),
+                               "observed": [str(g)[:300] for g in got[0]] + [got[1]], "serial_orders": [[list(o), [str(r)[:200] for r in res]] for o, res, _ in refs]}})
+    return out
+
 def suite_fault_listing(binf, tier, rng):
     """C10 in the states a failed call leaves behind: after every single fault of every mutating call, the listing and
     the lookups of a fresh process agree — a key is listed iff a lookup finds it, with the same fields, once."""
